@@ -137,9 +137,9 @@ def cover_summary(prop, drifted):
     allf = [k for f, lst in drift.spans().items() if f in anchored for k in ["%s::%s" % (f, n) for n, _, _ in lst]]
     ran = {k: v for k, v in COVER.items() if k.split("::")[0] in anchored and v > 0}
     not_run = sorted(k for k in allf if k not in ran)
-    return dict(measured=bool(COVER), functions_in_anchored_files=len(allf), functions_exercised=len(ran),
+    return dict(measured=bool(COVER), anchored_files=sorted(anchored), functions_in_anchored_files=len(allf), functions_exercised=len(ran),
                 mean_line_fraction_of_exercised=(round(sum(ran.values()) / len(ran), 3) if ran else 0.0),
-                not_exercised=not_run[:120],
+                not_exercised=not_run[:200],
                 drifted_but_not_exercised=[k for k in drifted if k in not_run],
                 note="line coverage of the implementation during this check's correspondence runs (coverage.py, in memory); "
                      "a function that is not exercised is not tied to the model by this check")
